@@ -243,7 +243,7 @@ Denote(q, env, ev) ==
          IF Bad(x) THEN x ELSE x.v[CHOOSE i \in DOMAIN x.keys : x.keys[i] = q.a]
     [] q.k = "Math" -> MathApply(q.a, [i \in 1..q.n |-> Denote(q.ch[i], env, ev)])
     [] q.k = "UserFn" -> UserApply(q.a, [i \in 1..Len(q.ch) |-> Denote(q.ch[i], env, ev)], ev)
-    [] q.k = "Root" -> Denote(q.ch[1], env, ev)
+    [] q.k \in {"Root", "Meta"} -> Denote(q.ch[1], env, ev)     \* Meta: a MetaData call, transparent
     [] OTHER -> Undef("no_denotation:" \o q.k)
 
 ----------------------------------------------------------------------------
@@ -348,7 +348,7 @@ TypeOf(q, tenv, sig) ==
                           x.v[CHOOSE i \in DOMAIN x.keys : x.keys[i] = q.a]
     [] q.k = "Math" -> NumT({"double"})
     [] q.k = "UserFn" -> IF FnMeaning(q.a) = "pair" THEN SeqT(NumT({"double"})) ELSE NumT({"double"})
-    [] q.k = "Root" -> TypeOf(q.ch[1], tenv, sig)
+    [] q.k \in {"Root", "Meta"} -> TypeOf(q.ch[1], tenv, sig)
     [] OTHER -> [t |-> "unknown"]
 
 ----------------------------------------------------------------------------
